@@ -60,7 +60,7 @@ def gen_sets(ctx):
             if ok_set(sub):
                 out.append((list(sub), True))
     rng = ctx.rng
-    for i in range(ctx.budget(120, 1500)):
+    for i in range(ctx.budget(400, 3000)):
         uni = rng.random() < 0.2
         names = []
         for _ in range(rng.randrange(1, 9)):
@@ -420,6 +420,12 @@ def run_all(ctx, drv, fsmod):
                     for x in wk:
                         ctx.count(f'walk:{kind}:' + ('n=%d' % min(len(x), 4) if isinstance(x, list) else x))
                     o[kind] = {'lookup': lk, 'walk': wk}
+                    tag = kind + '|' + '|'.join(w.names) + '|'
+                    stored = set(w.names)
+                    for q in queries:      # every (set, backend, query/folder) is a compared case
+                        ctx.case(tag + 'q|' + q, nontrivial=len(w.names) >= 2 or q not in stored, sample_every=50021)
+                    for d in folders:
+                        ctx.case(tag + 'd|' + d, nontrivial=True, sample_every=50021)
                     # direct property
                     qdom = [q for n in w.names for q in spellings(n, rng)] + [q for q in ('nope.txt', 'nope/a.vmt') ] + \
                            [n + 'x' for n in w.names] + folders_of(w.names)
@@ -434,7 +440,7 @@ def run_all(ctx, drv, fsmod):
                     ctx.case({'set': w.names, 'backend': kind}, nontrivial=len(w.names) >= 2, sample_every=211)
                 single_obs.append(o)
                 ctx.count('sets:size=%d' % min(len(w.names), 5))
-            chains = gen_chains(ctx, worlds, rng, ctx.budget(3, 6))
+            chains = gen_chains(ctx, worlds, rng, ctx.budget(5, 8))
             chain_obs = []
             cq = queries[:: max(1, len(queries) // 60)]
             cd = folders[:: max(1, len(folders) // 40)]
@@ -452,6 +458,7 @@ def run_all(ctx, drv, fsmod):
                     wrep.append(obs_walk(fsmod, _R(chain), d))
                     wded.append(obs_walk(fsmod, chain, d))
                 chain_obs.append({'lookup': lk, 'walkrep': wrep, 'walk': wded})
+                ctx.evaluations += len(lk) + 2 * len(cd) - 1
                 ctx.count('chains:len=%d' % len(members))
                 for r in lk:
                     ctx.count('chain:lookup:' + ('found' if isinstance(r, list) else r))
@@ -584,7 +591,7 @@ def search(ctx):
     ctx.witnesses.sort(key=size)
 
 
-def _replay_input(fsmod, inp):
+def _replay_input(fsmod, inp, verbose=False):
     """True = property holds on this input."""
     class C:  # a throw-away collector with the Ctx.witness interface
         def __init__(s): s.w = []
@@ -612,8 +619,9 @@ def _replay_input(fsmod, inp):
                 w.close()
     finally:
         shutil.rmtree(base, ignore_errors=True)
-    for k, what in c.w:
-        print(what)
+    if verbose:
+        for k, what in c.w:
+            print(what)
     return not c.w
 
 
@@ -624,7 +632,7 @@ def replay(ctx, payload):
         print('replay file names a broken obligation/correspondence, no input to replay:', payload.get('broken_obligations') or payload.get('broken'),
               payload.get('disagreements', [])[:1])
         return False
-    return _replay_input(fsmod, inp)
+    return _replay_input(fsmod, inp, verbose=True)
 
 
 def replay_known(ctx, finding):
